@@ -7,7 +7,7 @@ cd "$LAB" || exit 2
 git checkout -q -- . ; git clean -fdq tests examples
 cp "$D/demo.rs" "tests/demo_$N.rs" || exit 2
 git apply "$D/patch.diff" || { echo "PATCH does not apply"; exit 2; }
-out=$(cargo test --workspace --no-fail-fast --offline --lib --test lib --doc 2>&1)
+out=$( (cargo test --no-fail-fast --offline --lib --test lib; cargo test --no-fail-fast --offline --doc) 2>&1)
 if echo "$out" | grep -q "test result: FAILED\|^error"; then echo "1 suite WITH change: FAILS"; else echo "1 suite WITH change: passes ($(echo "$out" | grep 'test result: ok' | awk '{s+=$4} END {print s}'))"; fi
 out=$(cargo test --offline --test "demo_$N" 2>&1)
 if echo "$out" | grep -q "test result: FAILED\|panicked\|^error"; then echo "2 demo WITH change: FAILS (as it should)"; else echo "2 demo WITH change: passes (NOT a demonstration)"; fi
